@@ -8,3 +8,4 @@ INVARIANT InvNoDup
 INVARIANT InvAllIn
 INVARIANT InvIndex
 INVARIANT InvInverse
+INVARIANT InvSampledAgrees
